@@ -243,7 +243,11 @@ func (g *gen) obj(self int, depth int, allowAllOf bool) *Obj {
 		for i := self + 1; i < len(g.types); i++ {
 			if i >= 0 && g.types[i].kind == "str" && !g.usedKeyTypes[g.types[i].name] {
 				g.usedKeyTypes[g.types[i].name] = true
-				o.Props = append([]Prop{{Key: g.types[i].name, KeyRef: true, V: Val{Kind: "int", Int: g.num()}}}, o.Props...)
+				kv := Val{Kind: "int", Int: g.num()}
+				if g.chance(1, 2, "keyRefVal") {
+					kv = g.propVal(self, depth) // any value kind, objects and arrays included
+				}
+				o.Props = append([]Prop{{Key: g.types[i].name, KeyRef: true, V: kv}}, o.Props...)
 				break
 			}
 		}
@@ -264,7 +268,7 @@ func (g *gen) flatObj(keys ...string) *Schema {
 		case 0:
 			v = Val{Kind: "str", Str: fmt.Sprintf("s%d", g.num())}
 		case 1:
-			if tt, ok := g.refTarget(-1, "flatT", "int"); ok {
+			if tt, ok := g.refTarget(-1, "flatT", "int", "str", "regex"); ok {
 				v = Val{Kind: "ref", Ref: tt.name}
 			}
 		}
